@@ -286,10 +286,11 @@ def run_history(case, r):
             if op[2] and last_m != op[0]:
                 continue  # reuse is only defined after a solve with the same matrix
             o = fresh()
-            for h in hist:
-                call(o, h)
+            kept = [call(o, h) for h in hist]  # the arrays the caller received and still holds
+            snap = [k.copy() for k in kept]
             x = call(o, op)
             transitions += 1
+            r.check(all(np.array_equal(k, s0) for k, s0 in zip(kept, snap)), cell + "/results-kept", "a later solve leaves the solutions returned by earlier solves on the same object unchanged", history=hist, op=op, changed=[i for i, (k, s0) in enumerate(zip(kept, snap)) if not np.array_equal(k, s0)])
             want = table[(op[0], op[1])]
             sc = max(1.0, float(np.max(np.abs(want))))
             r.check(float(np.max(np.abs(x - want))) <= tol * sc, cell, "a solve on a re-used solver object (cached factorisation / buffers) returns what a fresh object returns", history=hist, op=op, err=float(np.max(np.abs(x - want))))
